@@ -34,10 +34,11 @@ func FuzzReaders(f *testing.F) {
 		f.Add([]byte(s), false)
 	}
 	f.Fuzz(func(t *testing.T, data []byte, recTime bool) {
-		if emptyPointLine(data) {
+		// VERIF_C18_NOEXCLUDE=readercrash switches the skipping off (demonstration, validation of a fix)
+		if !keep("readercrash") && emptyPointLine(data) {
 			t.Skip("known: replay/stream/reader-panics-on-record-without-point")
 		}
-		if nullBatch(data) {
+		if !keep("readercrash") && nullBatch(data) {
 			t.Skip("known: replay/batch/reader-panics-on-json-null")
 		}
 		clk := clock.New(time.Unix(0, 0).UTC())
